@@ -1,7 +1,8 @@
 (* C15 — Remote server survives any command sequence and always answers.
    Statements only; the model is Remote/Dispatch.v (text-command dispatcher of src/bin/adlt/remote.rs as
-   it is in /repo now, i.e. after the four `fix:` commits recorded in known_findings.d/C15.json), the
-   proofs are in Remote/DispatchProofs.v.
+   it is in /repo now, i.e. after the five `fix:` commits recorded in known_findings.d/C15.json; the `fs`
+   command - process_fs_cmd / fs_cmd_archive - is Remote/DispatchFs.v), the proofs are in
+   Remote/DispatchProofs.v and Remote/DispatchFsProofs.v.
 
    A history is a list of items (events of the event loop since the previous command, text frame,
    results of the trusted parsers for that frame).  All statements quantify over EVERY history: any
@@ -17,7 +18,8 @@
    Outside the models (exercised by the harness only): tungstenite/TCP, the parser/lifecycle/sort
    threads and the draining join of `close`, the content of the stream frames (C16). *)
 From Coq Require Import List NArith Bool Ascii String Sorted.
-From AdltV Require Import Base.Res Base.MachInt Remote.Dispatch Remote.DispatchProofs Remote.DispatchTick Remote.DispatchTickProofs Exec.C15.
+From Coq Require Import ZArith.
+From AdltV Require Import Base.Res Base.MachInt Remote.Dispatch Remote.DispatchFsProofs Remote.DispatchProofs Remote.DispatchTick Remote.DispatchTickProofs Exec.C15.
 Import ListNotations.
 Open Scope string_scope.
 Open Scope N_scope.
@@ -152,12 +154,100 @@ Proof. exact step_stop_first. Qed.
 Example C15_duplicate_plugins :
   let dup := [("Rewrite", false); ("FileTransfer", true); ("Rewrite", false); ("FileTransfer", true); ("FileTransfer", true)] in
   let h := [ it [] "open {..5 plugins..}" (oo (OpenOk CAll false dup));
-             it [] "plugin_cmd {Rewrite}" (oj (JGood "Rewrite") false);
-             it [] "plugin_cmd {FileTransfer}" (oj (JGood "FileTransfer") false);
-             it [] "plugin_cmd {Nope}" (oj (JGood "Nope") false);
-             it [] "plugin_cmd [1]" (oj JNotObject false) ] in
+             it [] "plugin_cmd {Rewrite}" (oj (JGood "Rewrite"));
+             it [] "plugin_cmd {FileTransfer}" (oj (JGood "FileTransfer"));
+             it [] "plugin_cmd {Nope}" (oj (JGood "Nope"));
+             it [] "plugin_cmd [1]" (oj JNotObject) ] in
   exists st', run_loop (init_state 1) h =
     Ok (st', [ [ROk (OkOpen 5)]; [RErr EPluginNoCmds]; [ROk OkPluginCmd]; [RErr EPluginNotFound]; [RErr ENotObject] ]).
+Proof. cbv zeta. eexists. vm_compute. reflexivity. Qed.
+
+(* ------------------------------------------------------------------ the environment a command refers to
+   `fs` is answered from what the path names on disk (Remote/DispatchFs.v: process_fs_cmd, type_for_filetype,
+   fs_cmd_archive line by line).  The oracle value [o_fs o] is everything the operating system and the trusted
+   archive helpers return for that path: symlink_metadata Ok (ANY file type, length, modification / creation time:
+   before, at or after the unix epoch, or not available) / NotFound / another error; read_dir likewise; for the
+   archive form whether the archive exists, is supported, can be opened, is corrupt (no list), empty, holds the
+   single member "data" or any member list; and ANY path text for the `archive!/within` split with its slice.
+   For EVERY such value and EVERY session state the command is answered by exactly one ok: / err: frame, nothing
+   panics, and the session state is untouched. *)
+Theorem C15_fs_one_reply_any_environment : forall st t o,
+  command_of t = "fs" ->
+  exists r, step st t o = Ok (st, [r]) /\ not_unknown r /\
+            (r = RErr EJsonParse \/ r = RErr ENotObject \/ r = RErr EFsErr \/ exists v, r = ROk (OkFs v)).
+Proof.
+  intros st t o Hc. destruct (step_fs_one st t o Hc) as [H|[H|[H|[v H]]]]; eexists; (split; [exact H|]); (split; [exact I|]); eauto.
+Qed.
+
+(* stat of a path that exists is answered ok: with the stat value, whatever the metadata is; a modification
+   (creation) time before the epoch or one the platform cannot tell is reported as 0 (the code's fallbacks
+   `unwrap_or(UNIX_EPOCH)` / `unwrap_or(Duration::from_secs(0))`), every other time as its milliseconds mod 2^64 *)
+Theorem C15_fs_stat_any_metadata : forall st t o name m,
+  command_of t = "fs" -> o_json o = JGood name ->
+  fo_cmd_path (o_fs o) = true -> fo_cmd (o_fs o) = FsCmdStat -> fo_meta (o_fs o) = MetaOk m ->
+  step st t o = Ok (st, [ROk (OkFs (FsStat (type_for_filetype (m_kind m) (m_target m)) (m_len m)
+                                           (time_ms (m_modified m)) (time_ms (m_created m))))]).
+Proof. exact step_fs_stat_existing. Qed.
+
+Theorem C15_fs_time_fallback : forall t : Z,
+  ((t < 0)%Z -> time_ms (Some t) = 0) /\ time_ms None = 0 /\
+  ((0 <= t)%Z -> time_ms (Some t) = (Z.to_N t / 1000000) mod 2 ^ 64) /\ time_ms (Some t) < 2 ^ 64.
+Proof.
+  intros t. split; [exact (time_ms_before_epoch t)|]. split; [reflexivity|].
+  split; [exact (time_ms_after_epoch t)|exact (time_ms_bound (Some t))].
+Qed.
+
+(* the `archive!/path/within` split of fs_cmd_archive (splitn, ends_with, uri[0], uri[1], `len() - 1`, the str
+   slice at a char boundary) returns for every path text *)
+Theorem C15_fs_archive_split_total : forall path, exists r, archive_split path = Ok r.
+Proof. exact archive_split_total. Qed.
+
+(* why the second fallback is needed: the same expression with `.unwrap()` on the result of
+   duration_since(UNIX_EPOCH) ([time_ms_unwrap], NOT what the code does) agrees with the code for every time at or
+   after the epoch and panics for EVERY time before it, e.g. one hour or one nanosecond before 1970 - the property
+   (one reply, connection alive) is refuted for that variant *)
+Theorem C15_fs_stat_time_unwrap_variant_refuted :
+  (forall t : Z, (0 <= t)%Z -> time_ms_unwrap (Some t) = Ok (time_ms (Some t))) /\
+  (forall t : Z, (t < 0)%Z -> time_ms_unwrap (Some t) = Panic site_fs_time_unwrap) /\
+  time_ms_unwrap (tm true 3600000000000) = Panic site_fs_time_unwrap /\
+  time_ms_unwrap (tm true 1) = Panic site_fs_time_unwrap /\
+  time_ms (tm true 3600000000000) = 0 /\ time_ms (tm true 1) = 0 /\ time_ms (tm false 0) = 0 /\
+  time_ms (tm false 15032385535000000000) = 15032385535000.
+Proof.
+  split; [exact time_ms_unwrap_agrees|]. split; [exact time_ms_unwrap_panics|].
+  vm_compute. repeat split; reflexivity.
+Qed.
+
+(* evaluated through the model: the value classes of the environment in one session (closed, then with a file open) *)
+Example C15_fs_environment :
+  let st_of ty mt := ofs (JGood "") (fso true 0 "/d/f" (mok ty 3 2 mt (tm false 1790842855163926593)) rdn false false false false None 0 None) in
+  let arch cmd path l rc am := ofs (JGood "") (fso true cmd path mnf rdn true true false true l rc am) in
+  let h := [ it [] "fs {stat old1h}" (st_of 1 (tm true 3600000000000));
+             it [] "fs {stat old1ns}" (st_of 1 (tm true 1));
+             it [] "fs {stat epoch}" (st_of 1 (tm false 0));
+             it [] "fs {stat future}" (st_of 1 (tm false 15032385535000000000));
+             it [] "fs {stat no mtime}" (st_of 0 tnone);
+             it [] "open {..}" (oo (OpenOk CAll false []));
+             it [] "fs {stat dangling link, old}" (ofs (JGood "") (fso true 0 "/d/l" (mok 2 3 7 (tm true 3600000000000) tnone) rdn false false false false None 0 None));
+             it [] "fs {stat a/x}" (ofs (JGood "") (fso true 0 "/d/a.dlt/x" mer rde false false false false None 0 None));
+             it [] "fs {readDirectory d}" (ofs (JGood "") (fso true 1 "/d" (mok 0 3 4096 (tm true 1) tnone) (RdOk 7) false false false false None 0 None));
+             it [] "fs {stat nofile}" (ofs (JGood "") (fso true 0 "/d/nofile" mnf rdn false false false false None 0 None));
+             it [] "fs {stat z.zip!/logs}" (arch 0 "/d/z.zip!/logs" (Some ["logs/a.dlt"; "logs/b.dlt"]) 2 (Some (0, 2)));
+             it [] "fs {stat z.zip!}" (arch 0 "/d/z.zip!" (Some ["data"]) 1 (Some (0, 1)));
+             it [] "fs {readDirectory empty.zip!/}" (arch 1 "/d/e.zip!/" (Some []) 0 None);
+             it [] "fs {stat empty.zip!/x}" (arch 0 "/d/e.zip!/x" (Some []) 0 None);
+             it [] "fs {stat bad.zip!/x}" (arch 0 "/d/bad.zip!/x" None 0 None);
+             it [] "fs {foo}" (ofs (JGood "") (fso true 2 "/d" (mok 0 3 4096 tnone tnone) (RdOk 7) false false false false None 0 None));
+             it [] "fs {}" (ofs JMissing fs0);
+             it [] "fs [" (ofs JBad fs0);
+             it [] "close" o0 ] in
+  exists st', run_loop (init_state 1) h =
+    Ok (st', [ [ROk (OkFs (FsStat 1 2 0 1790842855163))]; [ROk (OkFs (FsStat 1 2 0 1790842855163))];
+               [ROk (OkFs (FsStat 1 2 0 1790842855163))]; [ROk (OkFs (FsStat 1 2 15032385535000 1790842855163))];
+               [ROk (OkFs (FsStat 0 2 0 1790842855163))]; [ROk (OkOpen 0)];
+               [ROk (OkFs (FsStat 4 7 0 0))]; [ROk (OkFs FsInnerErr)]; [ROk (OkFs (FsList 7))]; [RErr EFsErr];
+               [ROk (OkFs (FsStat 0 2 0 0))]; [ROk (OkFs (FsStat 1 42 0 0))]; [ROk (OkFs (FsList 0))];
+               [ROk (OkFs FsInnerErr)]; [RErr EFsErr]; [RErr EFsErr]; [RErr EFsErr]; [RErr EJsonParse]; [ROk OkClose] ]).
 Proof. cbv zeta. eexists. vm_compute. reflexivity. Qed.
 
 (* the text layer: `<command> <params>` with a command word without blanks is dispatched to that command
@@ -264,7 +354,7 @@ Example C15_nonvacuous :
              it [] "stream_search 3 {}" (oi true 15);
              it [] "stop 03 x" o0;
              it [] "stop +3" o0;
-             it [] "plugin_cmd {..}" (oj (JGood "FileTransfer") false);
+             it [] "plugin_cmd {..}" (oj (JGood "FileTransfer"));
              it [] "close" o0;
              it [] " close" o0;
              it [] "open {..zip!/nothing*..}" (oof (OpenOk CAll false []) true 0);
@@ -304,6 +394,12 @@ Print Assumptions C15_inner_default_unreachable.
 Print Assumptions C15_plugin_cmd_duplicates_one_reply.
 Print Assumptions C15_stop_duplicates_one_reply.
 Print Assumptions C15_duplicate_plugins.
+Print Assumptions C15_fs_one_reply_any_environment.
+Print Assumptions C15_fs_stat_any_metadata.
+Print Assumptions C15_fs_time_fallback.
+Print Assumptions C15_fs_archive_split_total.
+Print Assumptions C15_fs_stat_time_unwrap_variant_refuted.
+Print Assumptions C15_fs_environment.
 Print Assumptions C15_frame_split.
 Print Assumptions C15_number_syntax.
 Print Assumptions C15_tick_one_pass_refuted.
